@@ -112,9 +112,159 @@ def r03_1_2(chk, facts):
                                  facts_, fn['q'])
             chk.require(nsusp >= 8, '%s: only %d suspend points recognised (expected >= 8)' % (fn['q'], nsusp))
 
+PARSERS = [('core', 'basic_json_parser'), ('cbor', 'basic_cbor_parser'), ('msgpack', 'basic_msgpack_parser'),
+           ('ubjson', 'basic_ubjson_parser'), ('bson', 'basic_bson_parser')]
+EVENTS = ('null_value', 'bool_value', 'int64_value', 'uint64_value', 'double_value', 'half_value', 'string_value', 'byte_string_value',
+          'begin_array', 'end_array', 'begin_object', 'end_object', 'key', 'typed_array', 'begin_multi_dim', 'end_multi_dim')
+
+def _is_visitor_event(c):
+    return A.is_call(c) and A.callee_name(c) in EVENTS and 'visitor' in A.strip_targs(c.get('cq', '')) and \
+           A.ref_name(c.get('obj')) in ('visitor', 'visitor_')
+
+def _sets_more_stop(node):
+    """Statement assigns more_ from !cursor_mode_ (or false)."""
+    if node.kind != 'stmt' or not isinstance(node.ast, dict): return False
+    am = U.assigned_member(node.ast)
+    if not am or am[0] != 'more_': return False
+    rhs = A.strip(am[1], casts=True)
+    if rhs is None: return False
+    if A.const(rhs) == 0: return True
+    if rhs.get('k') == 'UnaryOperator' and rhs.get('op') == '!' and A.ref_name(rhs.get('sub')) == 'cursor_mode_': return True
+    return False
+
+def r03_5(chk, tier):
+    chk.rule('R03.5', 'cursor stop pairing: in the five event-producing parsers every visitor event emission is followed, on every path to '
+                      'the function exit that does not pass an error return, by `more_ = !cursor_mode_` (or more_ = false), so that a pull '
+                      'cursor sees every event the push visitor sees', floor=90)
+    n = 0
+    for unit, cls in PARSERS:
+        facts = F.load([unit], tier)
+        if unit not in chk.units: chk.units.append(unit)
+        for fn in U.one_per_inst(U.functions(facts, cls=cls)):
+            if fn.get('body') is None: continue
+            evs = [c for c in A.walk_no_lambda(fn['body']) if _is_visitor_event(c)]
+            if not evs: continue
+            chk.analysed(fn)
+            g = C.CFG(fn['body'])
+            stops = [nd for nd in g.rpo if _sets_more_stop(nd)]
+            for i, c in enumerate(evs):
+                nd = g.node_of(c)
+                if nd is None: continue
+                n += 1
+                site = U.site(fn, 'event#%d=%s' % (i + 1, A.callee_name(c)))
+                # paths from the event to the exit avoiding every stop statement: allowed only through an error return
+                # (a return dominated by a test of `ec`)
+                reach = g.reachable_from(nd, avoid=stops)
+                bad = None
+                for r in g.rpo:
+                    if r.id not in reach or r is nd: continue
+                    if r.kind == 'return' or (r.kind == 'exit'):
+                        if r.kind == 'exit':
+                            # falling off the end: predecessors that are not returns
+                            preds = [p for p in r.pred if p.id in reach and p.kind != 'return']
+                            if preds: bad = preds[0]; break
+                            continue
+                        # error return: some guard on the path tests ec
+                        gs = [A.text(a) for a, lab, e in g.guards(r) if g.dominates(nd, e) or True]
+                        if any('ec' in t for t in gs): continue
+                        bad = r; break
+                facts_ = {'function': fn['q'], 'event': A.text(c)[:80], 'line': c.get('l')}
+                if bad is None: chk.ok('R03.5', site, facts_ if n % 25 == 1 else None)
+                else:
+                    chk.fail('R03.5', site, fn['file'], c.get('l'), '%s emitted in %s can reach the end of the function (line %s) without '
+                             '`more_ = !cursor_mode_`: a pull cursor would not stop on this event' % (A.callee_name(c), fn['n'], bad.line), facts_, fn['q'])
+    chk.require(n >= 90, 'R03.5: only %d event emissions found' % n)
+
+def r03_6(chk, tier):
+    chk.rule('R03.6', 'container-close agreement: end_array/end_object (end_document) of every parser stop at the marked level '
+                      '(`level() == mark_level_` -> more_ = false), which read_to() and the staj iterators rely on', floor=10)
+    n = 0
+    for unit, cls in PARSERS:
+        facts = F.load([unit], tier)
+        for fn in U.one_per_inst(U.functions(facts, cls=cls)):
+            if fn.get('body') is None: continue
+            closes = [c for c in A.walk_no_lambda(fn['body']) if _is_visitor_event(c) and A.callee_name(c) in ('end_array', 'end_object')]
+            if not closes: continue
+            # typed-array / multi-dim helper paths emit through iterators; only the parser's own closers are in scope
+            chk.analysed(fn)
+            g = C.CFG(fn['body'])
+            for i, c in enumerate(closes):
+                n += 1
+                nd = g.node_of(c)
+                site = U.site(fn, 'close#%d=%s' % (i + 1, A.callee_name(c)))
+                ok = False
+                for m in g.rpo:
+                    if m.kind == 'cond' and ('mark_level' in A.text(m.ast)) and nd is not None and (g.can_reach(nd, [m]) or g.can_reach(m, [nd])):
+                        cmp_ = A.strip(m.ast)
+                        if cmp_ is not None and cmp_.get('k') == 'BinaryOperator' and cmp_.get('op') == '==':
+                            t_edges = [e for e in m.succ if e.kind == 'edge' and e.label is True]
+                            if t_edges and any(x.kind == 'stmt' and U.assigned_member(x.ast) and U.assigned_member(x.ast)[0] == 'more_' and A.const(U.assigned_member(x.ast)[1]) == 0
+                                               for x in guards_region(g, t_edges[0])):
+                                ok = True
+                facts_ = {'function': fn['q'], 'line': c.get('l')}
+                if ok: chk.ok('R03.6', site, facts_)
+                else:
+                    chk.fail('R03.6', site, fn['file'], c.get('l'), '%s in %s::%s has no mark-level stop (`if (level() == mark_level_) more_ = false`): '
+                             'read_to() on a nested container runs past its end' % (A.callee_name(c), cls, fn['n']), facts_, fn['q'])
+    chk.require(n >= 10, 'R03.6: only %d container closes found' % n)
+
+def guards_region(g, edge):
+    from .. import guards as G
+    return G.region_of_edge(g, edge)
+
+def r03_7(chk, tier):
+    chk.rule('R03.7', 'span lifetime: a span returned by source_.read_span() is not used after a later read/peek/ignore/read_span on the same '
+                      'source (which may refill the buffer the span points into)', floor=10)
+    n = 0
+    for unit, cls in PARSERS[1:]:
+        facts = F.load([unit], tier)
+        for fn in U.one_per_inst(U.functions(facts, cls=cls)):
+            if fn.get('body') is None: continue
+            spans = []
+            for x in A.walk_no_lambda(fn['body']):
+                if x.get('k') == 'VarDecl' and x.get('init') is not None:
+                    ini = A.strip(x['init'], casts=True)
+                    if ini is not None and ini.get('k') == 'CXXMemberCallExpr' and A.callee_name(ini) == 'read_span' and A.ref_name(ini.get('obj')) == 'source_':
+                        spans.append(x)
+            if not spans: continue
+            chk.analysed(fn)
+            g = C.CFG(fn['body'])
+            for d in spans:
+                n += 1
+                site = U.site(fn, 'span %s' % d.get('n'))
+                dn = None
+                for nd in g.rpo:
+                    if nd.kind == 'stmt' and isinstance(nd.ast, dict) and nd.ast.get('k') == 'DeclStmt' and any(v is d for v in nd.ast.get('decls') or []): dn = nd
+                if dn is None: continue
+                bad = None
+                # source consumers reachable after the span is taken
+                for m in g.rpo:
+                    if m is dn or m.id not in g.reachable_from(dn) or not isinstance(m.ast, dict): continue
+                    cons = [c for c in A.calls_in(m.ast) if c.get('k') == 'CXXMemberCallExpr' and A.ref_name(c.get('obj')) == 'source_' and
+                            A.callee_name(c) in ('read', 'read_span', 'peek', 'ignore')]
+                    if not cons: continue
+                    # any use of the span variable reachable after that consumer?
+                    after = g.reachable_from(m)
+                    for u in g.rpo:
+                        if u.id in after and u is not m and isinstance(u.ast, dict) and u.kind in ('stmt', 'return', 'cond'):
+                            if any(y.get('k') == 'DeclRefExpr' and y.get('id') == d.get('id') for y in A.walk(u.ast)):
+                                # uses on error paths that only test size are still uses; report
+                                bad = (cons[0], u); break
+                    if bad: break
+                facts_ = {'function': fn['q'], 'span_line': d.get('l')}
+                if bad is None: chk.ok('R03.7', site, facts_ if n % 5 == 1 else None)
+                else:
+                    chk.fail('R03.7', site, fn['file'], bad[1].line, 'span `%s` from source_.read_span() (line %s) is used at line %s after `%s` (line %s) read '
+                             'from the same source: with a stream source the refill overwrites the bytes the span points to' % (
+                                 d.get('n'), d.get('l'), bad[1].line, A.text(bad[0])[:40], bad[0].get('l')), facts_, fn['q'])
+    chk.require(n >= 10, 'R03.7: only %d read_span results found' % n)
+
 def run(chk, tier, only_rule=None):
     chk.explanation = EXPLANATION
     chk.not_decided = NOT_DECIDED
     facts = F.load(['core'], tier)
     chk.units = facts.units
     r03_1_2(chk, facts)
+    r03_5(chk, tier)
+    r03_6(chk, tier)
+    r03_7(chk, tier)
